@@ -433,3 +433,226 @@ Proof.
       { destruct cr; rewrite IH by assumption; reflexivity. }
       rewrite IH by assumption. reflexivity.
 Qed.
+
+(** * tokens of rendered constructs *)
+Definition chars_toks (s : bytes) : list token := match s with [] => [] | _ => [TChars s] end.
+
+Lemma next_tokens_text h s tail :
+  h <> [] -> scan_text MBody false None (h ++ tail) = Some (s, tail) ->
+  next_tokens (h ++ tail) = Some (chars_toks s, tail).
+Proof.
+  intros Hh H. unfold next_tokens. rewrite H. destruct s; [|reflexivity].
+  assert (Hlt : Nat.ltb (length tail) (length (h ++ tail)) = true).
+  { apply Nat.ltb_lt. rewrite app_length. destruct h; [contradiction | cbn [length]; lia]. }
+  now rewrite Hlt.
+Qed.
+
+Lemma next_tokens_markup t :
+  starts_markup t = true -> next_tokens (60 :: t) = markup_tokens (60 :: t).
+Proof.
+  intros H. unfold next_tokens. cbn [scan_text]. cbn [N.eqb Pos.eqb]. rewrite H.
+  now rewrite Nat.ltb_irrefl.
+Qed.
+
+Lemma marker_tokens tail : next_tokens (marker ++ tail) = Some ([TComment []], tail).
+Proof. unfold marker. cbn [app]. rewrite next_tokens_markup by reflexivity. reflexivity. Qed.
+
+Lemma lower_props c : is_lower c = true -> is_tag_delim c = false /\ c <> 0 /\ lower_b c = c.
+Proof.
+  unfold is_lower, is_tag_delim, is_ws, lower_b, is_upper, in_range. intros H.
+  apply andb_true_iff in H. destruct H as [H1 H2]. apply N.leb_le in H1, H2.
+  repeat split; try lia.
+  - repeat (apply orb_false_iff; split); apply N.eqb_neq; lia.
+  - destruct (N.leb_spec 65 c); destruct (N.leb_spec c 90); cbn [andb]; lia.
+Qed.
+
+Lemma scan_tag_name_lower nm d r :
+  lower_name nm -> is_tag_delim d = true -> scan_tag_name (nm ++ d :: r) = (nm, d :: r).
+Proof.
+  intros Hn Hd. induction Hn as [|c nm Hc _ IH]; cbn [app scan_tag_name].
+  - now rewrite Hd.
+  - destruct (lower_props c Hc) as (H1 & H2 & H3). rewrite H1, IH.
+    destruct (N.eqb_spec c 0); [contradiction|]. now rewrite H3.
+Qed.
+
+Lemma tag_name_lower t : lower_name (tag_name t).
+Proof. destruct t; repeat constructor. Qed.
+
+Lemma end_tag_tokens t tail :
+  next_tokens ([60; 47] ++ tag_name t ++ 62 :: tail) = Some ([TEnd (tag_name t)], tail).
+Proof.
+  cbn [app]. rewrite next_tokens_markup by reflexivity.
+  unfold markup_tokens, scan_end_tag.
+  assert (Ha : exists c nm, tag_name t = c :: nm /\ is_alpha c = true) by (destruct t; eexists; eexists; split; reflexivity).
+  destruct Ha as (c & nm & E & Hc).
+  rewrite (scan_tag_name_lower (tag_name t) 62 tail (tag_name_lower t) eq_refl).
+  rewrite E. cbn [app]. rewrite Hc. rewrite <- E. reflexivity.
+Qed.
+
+Lemma start_tag_tokens t attrs X :
+  forallb attr_ok attrs = true ->
+  markup_tokens (60 :: tag_name t ++ attrs_html attrs ++ 62 :: X) =
+  match classify (tag_name t) with
+  | KRcdata =>
+      match scan_text (MRcdata (tag_name t)) false None X with
+      | Some (content, r2) =>
+          Some ([TStart (tag_name t) (tree_attrs attrs);
+                 TChars (if beq (tag_name t) textarea_name then drop_lf content else content)], r2)
+      | None => None
+      end
+  | KRaw =>
+      match scan_text (MRaw (tag_name t)) false None X with
+      | Some (content, r2) => Some ([TStart (tag_name t) (tree_attrs attrs); TChars content], r2)
+      | None => None
+      end
+  | KUnsupported => None
+  | _ => Some ([TStart (tag_name t) (tree_attrs attrs)], X)
+  end.
+Proof.
+  intros Hok.
+  destruct (attrs_html_head attrs X) as (d & r & E & Hd).
+  assert (Hs := scan_attrs_html attrs X Hok). rewrite E in Hs. rewrite E.
+  assert (Hn := scan_tag_name_lower (tag_name t) d r (tag_name_lower t) Hd).
+  destruct t; cbn [tag_name textarea_name title_name script_name style_name app] in *;
+    unfold markup_tokens; rewrite Hn, Hs; reflexivity.
+Qed.
+
+Lemma start_tag_starts t Y : starts_markup (tag_name t ++ Y) = true.
+Proof. destruct t; reflexivity. Qed.
+
+(** * the token stream of a rendered view *)
+Inductive Toks : bytes -> list token -> Prop :=
+| Toks_nil : Toks [] []
+| Toks_step inp toks rest more :
+    inp <> [] -> next_tokens inp = Some (toks, rest) -> (length rest < length inp)%nat ->
+    Toks rest more -> Toks inp (toks ++ more).
+
+(** the fuel of [tokenize] is enough (its exhaustion is excluded) *)
+Lemma Toks_tokenize inp l :
+  Toks inp l -> forall f, (length inp <= f)%nat -> tokenize f inp = Some l.
+Proof.
+  induction 1 as [|inp toks rest more Hne Hn Hlen _ IH]; intros f Hf.
+  - destruct f; reflexivity.
+  - destruct inp as [|c t]; [contradiction|].
+    destruct f as [|f]; [cbn [length] in Hf; lia|].
+    cbn [tokenize]. rewrite Hn. rewrite IH by (cbn [length] in *; lia). reflexivity.
+Qed.
+
+Definition sep_toks (p : pos) : list token := match p with AfterText => [TComment []] | _ => [] end.
+Definition leaf_or_empty (v : view) : bytes := match leaf_text v with Some s => s | None => [] end.
+(** what a text-like child shows as in an escaping parent *)
+Definition shown (v : view) : bytes := match v with VText [] => [32] | _ => leaf_or_empty v end.
+Definition title_text (kids : list view) : bytes := match kids with [k] => shown k | _ => [] end.
+
+Fixpoint toks (p : pos) (v : view) {struct v} : list token * pos :=
+  match v with
+  | VEl t attrs kids =>
+      let name := tag_name t in
+      let st := TStart name (tree_attrs attrs) in
+      (if is_void t then [st]
+       else match t with
+            | Textarea => [st; TChars (drop_lf (norm_attr (raw_text kids))); TEnd name]
+            | ScriptT | StyleT => [st; TChars (norm_attr (raw_text kids)); TEnd name]
+            | Title => [st; TChars (norm_attr (title_text kids)); TEnd name]
+            | _ =>
+                st :: (fix go (p : pos) (l : list view) : list token :=
+                         match l with
+                         | [] => []
+                         | k :: l' => let '(ts, p') := toks p k in ts ++ go p' l'
+                         end) FirstChild kids ++ [TEnd name]
+            end, NextChild)
+  | VUnit => ([TComment []], NextChild)
+  | _ => (sep_toks p ++ chars_toks (norm_body (shown v)), AfterText)
+  end.
+Fixpoint toks_list (p : pos) (l : list view) : list token :=
+  match l with
+  | [] => []
+  | k :: l' => let '(ts, p') := toks p k in ts ++ toks_list p' l'
+  end.
+
+(** ** unfolding lemmas for the nested fixpoints *)
+Lemma render_el esc p t attrs kids :
+  render esc p (VEl t attrs kids) =
+  (([60] ++ tag_name t ++ attrs_html attrs ++ [62])
+   ++ (if is_void t then []
+       else (match t with Textarea => encode_text (render_list (escape_children t) FirstChild kids)
+                        | _ => render_list (escape_children t) FirstChild kids end)
+            ++ [60; 47] ++ tag_name t ++ [62]), NextChild).
+Proof.
+  assert (E : forall p0 l,
+    (fix go (p : pos) (l : list view) {struct l} : bytes :=
+       match l with
+       | [] => []
+       | k :: l' => let '(h, p') := render (escape_children t) p k in h ++ go p' l'
+       end) p0 l = render_list (escape_children t) p0 l).
+  { intros p0 l. revert p0. induction l as [|k l IH]; intros p0; [reflexivity|].
+    cbn [render_list]. destruct (render (escape_children t) p0 k). now rewrite IH. }
+  cbn [render]. rewrite E. reflexivity.
+Qed.
+
+Lemma toks_el p t attrs kids :
+  toks p (VEl t attrs kids) =
+  (if is_void t then [TStart (tag_name t) (tree_attrs attrs)]
+   else match t with
+        | Textarea => [TStart (tag_name t) (tree_attrs attrs); TChars (drop_lf (norm_attr (raw_text kids))); TEnd (tag_name t)]
+        | ScriptT | StyleT => [TStart (tag_name t) (tree_attrs attrs); TChars (norm_attr (raw_text kids)); TEnd (tag_name t)]
+        | Title => [TStart (tag_name t) (tree_attrs attrs); TChars (norm_attr (title_text kids)); TEnd (tag_name t)]
+        | _ => TStart (tag_name t) (tree_attrs attrs) :: toks_list FirstChild kids ++ [TEnd (tag_name t)]
+        end, NextChild).
+Proof.
+  assert (E : forall p0 l,
+    (fix go (p : pos) (l : list view) {struct l} : list token :=
+       match l with
+       | [] => []
+       | k :: l' => let '(ts, p') := toks p k in ts ++ go p' l'
+       end) p0 l = toks_list p0 l).
+  { intros p0 l. revert p0. induction l as [|k l IH]; intros p0; [reflexivity|].
+    cbn [toks_list]. destruct (toks p0 k). now rewrite IH. }
+  cbn [toks]. rewrite E. reflexivity.
+Qed.
+
+Lemma view_ok_el t attrs kids :
+  view_ok (VEl t attrs kids) = true ->
+  forallb attr_ok attrs = true /\ forallb view_ok kids = true
+  /\ (match t with
+      | Textarea | ScriptT | StyleT => forallb text_like kids
+      | Title => match kids with [] => true | [k] => text_like k | _ => false end
+      | _ => true
+      end) = true.
+Proof.
+  cbn [view_ok]. intros H. apply andb_true_iff in H. destruct H as [H H3].
+  apply andb_true_iff in H. destruct H as [H1 H2]. repeat split; assumption.
+Qed.
+
+Lemma known_class_el t attrs kids :
+  known_class (VEl t attrs kids) = false ->
+  raw_breakout t kids = false /\ forallb (fun k => negb (known_class k)) kids = true.
+Proof.
+  cbn [known_class]. intros H. apply orb_false_iff in H. destruct H as [H1 H2]. split; [assumption|].
+  clear - H2. induction kids as [|k l IH]; [reflexivity|].
+  apply orb_false_iff in H2. destruct H2 as [Hk Hl]. cbn [forallb]. rewrite Hk. now apply IH.
+Qed.
+
+(** ** induction on views *)
+Section ViewInd.
+  Variable P : view -> Prop.
+  Hypothesis Htext : forall s, P (VText s).
+  Hypothesis Hchar : forall c, P (VChar c).
+  Hypothesis Hnum : forall z, P (VNum z).
+  Hypothesis Hunit : P VUnit.
+  Hypothesis Hel : forall t attrs kids, Forall P kids -> P (VEl t attrs kids).
+  Fixpoint view_ind' (v : view) : P v :=
+    match v with
+    | VText s => Htext s
+    | VChar c => Hchar c
+    | VNum z => Hnum z
+    | VUnit => Hunit
+    | VEl t attrs kids =>
+        Hel t attrs kids
+          ((fix go (l : list view) : Forall P l :=
+              match l with
+              | [] => Forall_nil P
+              | k :: l' => Forall_cons k (view_ind' k) (go l')
+              end) kids)
+    end.
+End ViewInd.
